@@ -3,6 +3,7 @@ package checks
 import (
 	"bytes"
 	"context"
+	"encoding/binary"
 	"fmt"
 	"os"
 	"path/filepath"
@@ -82,8 +83,8 @@ func c11Read(b []byte, format string, threads int, validate bool) (symptom strin
 		r.Close()
 		var after runtime.MemStats
 		runtime.ReadMemStats(&after)
-		if grown := int64(after.TotalAlloc) - int64(before.TotalAlloc); grown > 512<<20 {
-			done <- fmt.Sprintf("allocates-more-than-512MiB-for-%d-byte-input", len(b))
+		if grown := int64(after.TotalAlloc) - int64(before.TotalAlloc); grown > 64<<20 {
+			done <- fmt.Sprintf("allocates-more-than-64MiB-for-a-%d-byte-input-with-readmax-64KiB", len(b))
 			return
 		}
 		done <- ""
@@ -172,6 +173,10 @@ func c11Jobs() []c11Job {
 			jobs = append(jobs, c11Job{name: fmt.Sprintf("all byte strings of length<=2 with first byte %02x..%02x", from, from+15), kind: "short-bytes", from: from, to: from + 16})
 		}
 		jobs = append(jobs, c11Job{name: "all strings of length 3-4 over the boundary alphabet", kind: "short-alpha"})
+		// (i') ZNG frame headers with boundary length fields, in slices of 16 frame codes
+		for from := 0; from < 256; from += 16 {
+			jobs = append(jobs, c11Job{name: fmt.Sprintf("zng frame headers with boundary length fields, frame code %02x..%02x", from, from+15), kind: "zng-headers", from: from, to: from + 16})
+		}
 		// (ii) mutation neighbourhoods of valid encodings
 		seeds := c11Seeds()
 		var formats []string
@@ -323,6 +328,28 @@ func c11Run(j c11Job, c *isoCtx) {
 				}
 			}
 		}
+	case "zng-headers":
+		// frame code byte, length uvarint, then nothing / zeros / a compression header
+		// (format byte, uncompressed-size uvarint) followed by a few bytes
+		lens := []uint64{0, 1, 15, 16, 127, 128, 1 << 14, 1 << 20, 1 << 28, 1<<31 - 1, 1 << 31, 1 << 32, 1 << 40, 1<<59 - 1, 1 << 59, 1<<63 - 1, 1 << 63, 1<<64 - 1}
+		for code := j.from; code < j.to; code++ {
+			for _, l := range lens {
+				head := binary.AppendUvarint([]byte{byte(code)}, l)
+				c11Try(c, &step, head, []string{"zng", "auto"}, fmt.Sprintf("frame code %02x length %d", code, l))
+				c11Try(c, &step, append(append([]byte(nil), head...), make([]byte, 16)...), []string{"zng"}, fmt.Sprintf("frame code %02x length %d + 16 zero bytes", code, l))
+				if code&0x40 == 0 && !rep.Thorough() {
+					continue
+				}
+				for _, format := range []byte{0, 1, 0xff} {
+					for _, size := range lens {
+						b := append(append([]byte(nil), head...), format)
+						b = binary.AppendUvarint(b, size)
+						b = append(b, 0x10, 'a', 0, 0)
+						c11Try(c, &step, b, []string{"zng"}, fmt.Sprintf("frame code %02x length %d compression format %d declared size %d", code, l, format, size))
+					}
+				}
+			}
+		}
 	case "mutations":
 		formats := []string{j.format, "auto"}
 		seed := j.seed
@@ -424,7 +451,7 @@ func TestC11(t *testing.T) {
 	}
 	run.Sample(map[string]any{"jobs": len(jobs), "example": jobs[len(jobs)/2].name, "readers": c11Formats})
 	run.Set("exhaustive", true)
-	run.Set("rule", "(i) every byte string of length <= 2 and every string of length 3 (and a third of those of length 4; all in thorough) over the boundary alphabet {00,01,0f,10,1f,20,40,7f,80,ff}, to every reader (zng, vng, zson, zjson, json, csv, tsv, zeek, line) and to auto-detection; (ii) for each seed (a quarter of the boundary universe's values, all in thorough, and three multi-value sequences, encoded as ZNG compressed and uncompressed, VNG, ZSON, ZJSON, JSON, CSV, Zeek): truncation at every offset, every single-bit flip, every single-byte substitution from the alphabet (thorough: every pair of substitutions in the first 12 bytes), to the format's reader and to auto-detection, with threads 1 + validate and threads 2; (iii) query text: every token deletion, duplication, adjacent swap and every truncation of compiler/parser/valid.zed lines and ztest programs through compiler.Parse + semantic analysis. Oracle: no panic (a panic in a reader goroutine kills the child process and is attributed to the input by a trace re-run), the read loop ends within 30 s, at most 100000 values and 512 MiB allocated per input, and with validation on every delivered value passes Value.Validate. distinct = jobs")
+	run.Set("rule", "(i) every byte string of length <= 2 and every string of length 3 (and a third of those of length 4; all in thorough) over the boundary alphabet {00,01,0f,10,1f,20,40,7f,80,ff}, to every reader (zng, vng, zson, zjson, json, csv, tsv, zeek, line) and to auto-detection; (i') ZNG frame headers: every frame code byte x 18 boundary values of the length field (0 .. 2^64-1) alone, followed by zeros, and (compressed frame codes; all codes in thorough) followed by a compression header with format {0,1,ff} x the same 18 declared uncompressed sizes; (ii) for each seed (a quarter of the boundary universe's values, all in thorough, and three multi-value sequences, encoded as ZNG compressed and uncompressed, VNG, ZSON, ZJSON, JSON, CSV, Zeek): truncation at every offset, every single-bit flip, every single-byte substitution from the alphabet (thorough: every pair of substitutions in the first 12 bytes), to the format's reader and to auto-detection, with threads 1 + validate and threads 2; (iii) query text: every token deletion, duplication, adjacent swap and every truncation of compiler/parser/valid.zed lines and ztest programs through compiler.Parse + semantic analysis. Oracle: no panic (a panic in a reader goroutine kills the child process and is attributed to the input by a trace re-run), the read loop ends within 30 s, at most 100000 values and 64 MiB allocated per input (inputs are at most 400 bytes and readmax is 64 KiB), and with validation on every delivered value passes Value.Validate. distinct = jobs")
 	run.Assume("coverage-guided mutation is a sampling technique and is not used; neighbourhoods are distance 1 (2 in thorough) from valid encodings")
 	run.Assume("goroutine leaks are not measured here")
 }
